@@ -136,7 +136,7 @@ fn gen_dur(r: &mut Rng) -> BigCase {
         }
     }
     ops.push(Op::End);
-    let mut sc = MuxScenario { cfg: plain_cfg(tm), ops, start_pos: 0, io: IoKnobs::plain(), preexisting: 0, fault: None };
+    let mut sc = MuxScenario { cfg: plain_cfg(tm), ops, start_pos: 0, io: IoKnobs::plain(), preexisting: 0, fault: None, fault_len: 0, fault_api: None };
     fit_durations(&mut sc);
     BigCase { family: "dur".into(), side, sc }
 }
@@ -181,7 +181,7 @@ fn gen_payload(r: &mut Rng, kind: Kind, offset_boundary: bool, side: i8) -> BigC
     }
     ops.push(Op::Write { track_id: 1 + (i as u32 % ntracks), s: fill(0x7E, tail, 1000) });
     ops.push(Op::End);
-    let sc = MuxScenario { cfg: plain_cfg(1000), ops, start_pos: 0, io: IoKnobs::plain(), preexisting: 0, fault: None };
+    let sc = MuxScenario { cfg: plain_cfg(1000), ops, start_pos: 0, io: IoKnobs::plain(), preexisting: 0, fault: None, fault_len: 0, fault_api: None };
     BigCase { family: if offset_boundary { "payload_offset".into() } else { "payload_mdat".into() }, side, sc }
 }
 
@@ -203,7 +203,7 @@ fn gen_huge_sample(r: &mut Rng, over: bool) -> BigCase {
         Op::Write { track_id: 1, s: SampleW { payload: Payload::Stamp { len: 7, tag: 77 }, duration: 1000, offset: 0, sync: true, start_time: 0 } },
         Op::End,
     ];
-    let sc = MuxScenario { cfg: plain_cfg(1000), ops, start_pos: 0, io: IoKnobs::plain(), preexisting: 0, fault: None };
+    let sc = MuxScenario { cfg: plain_cfg(1000), ops, start_pos: 0, io: IoKnobs::plain(), preexisting: 0, fault: None, fault_len: 0, fault_api: None };
     BigCase { family: "huge_sample".into(), side: if over { 1 } else { -1 }, sc }
 }
 
